@@ -13,7 +13,7 @@ from .reference import Reference, declared_edges, reachable
 from .sim import BarrierScheduler, FifoScheduler, ScriptedScheduler, make_scheduler
 
 # construct classes currently claimed (extended as defects are repaired); see DESIGN 4.2 / 7
-CLASSES_ALL = ['plain', 'rec']
+CLASSES_ALL = ['plain', 'rec', 'switch', 'switch_unk', 'switch_shared', 'oneof', 'oneof_nested']
 
 
 def h64(*parts) -> int:
